@@ -21,6 +21,23 @@ CLAIMED = {
              "text. The quantifier is the property's: schemas check_schema accepts (acceptance itself is C11); crashes are "
              "C03's. Exhaustive within the universe bounds, sampled beyond.",
         design="5 C01"),
+    "C03": dict(
+        technique="TLA+ Semantics outcome classes + Meta!Accepts; TLC enumerates the shape universe (MC_Shape) incl. reference "
+                  "cases and exports the allowed outcome classes per (schema, instance); replayed through 4 entry points x 3 "
+                  "checker configurations with validators reused across instances; random mutated schemas trace-validated "
+                  "(Trace_Outcome)",
+        text="The specification is total on accepted, well-founded schemas and says which outcome classes a validation may "
+             "have: valid/invalid, RefResolutionError where a reference may fail to resolve, UnknownType where a Draft 3 "
+             "type name is unknown. TLC enumerates the universe of everything-the-metaschema-might-let-through (keyword x "
+             "JSON shape, one level down, reference cases) and exports the allowed classes; every schema the real "
+             "check_schema accepts is run through is_valid, iter_errors, validate and jsonschema.validate, with no checker, "
+             "FormatChecker() and the draft checker, on 22 instances including numbers no float can hold, each batch under "
+             "an alarm; any other escaping exception or a timeout is a violation. Two classes of genuine defects are "
+             "recorded as known findings (ill-founded reference cycles, reference targets that are not schemas), "
+             "identified by predicates of the specification.",
+        note="Network primitives are replaced by stubs that raise. Verdict exactness is C01's claim; here only the class. "
+             "Quick: singles over a 16-shape pool + downs; thorough: pairs inside families over the 33-shape pool.",
+        design="5 C03"),
     "C05": dict(
         technique="TLA+ error model of Semantics.tla; TLC checks the union law (invariant) and the incremental law (action "
                   "property) on every SchemaBuilder state and exports expected error bags replayed into iter_errors; "
@@ -78,6 +95,34 @@ CLAIMED = {
              "bits; pairs whose divisibility the spec cannot decide (long division > 160 steps, no witness) are skipped "
              "and counted.",
         design="5 C09"),
+    "C10": dict(
+        technique="TLC action properties C10Step / RefSiblingStep on the SchemaBuilder machine (foreign names, foreign keyword "
+                  "groups, keywords next to $ref) with exported error bags replayed into iter_errors; random foreign "
+                  "insertions at any subschema position trace-validated by TLC (Trace_Errors!Inserted)",
+        text="The specification's vocabulary tables say which names each draft defines and which sibling names its keywords "
+             "consult; everything else is foreign. TLC checks as action properties of the schema-builder machine that "
+             "adding a foreign keyword (annotation, other-draft, later-spec or arbitrary name, alone or together with the "
+             "siblings it would consult if honoured, with several value shapes) leaves the error bag of every instance "
+             "unchanged, and that keywords written next to a $ref (including \"$ref\": \"\" and \"#\") are ignored; the "
+             "expected bags of the extended schemas are replayed into the real classes. Random deep schemas get 1-3 foreign "
+             "keywords at random subschema positions; TLC verifies that the second schema is an insertion of inert members "
+             "at schema positions and that the recorded bags are equal.",
+        note="id/$id base-URI behaviour per draft is exercised by the reference scenarios of C02. Messages are not compared "
+             "(they may quote the schema).",
+        design="5 C10"),
+    "C11": dict(
+        technique="Meta!Accepts = the TLA+ semantics applied to the bundled metaschema (read from the working tree); TLC "
+                  "enumerates the shape universe (MC_Shape) and exports acceptance bits replayed into check_schema; random "
+                  "mutated deep candidates trace-validated (Trace_Outcome)",
+        text="Acceptance is defined in the specification as: the draft's own semantics, applied to the metaschema bundled in "
+             "the working tree (with $ref \"#\", definitions, dependencies, type unions, Draft 3 extends), yields no "
+             "error. TLC evaluates it on every candidate of the shape universe (malformed values at the root and one "
+             "level down, non-object candidates) and on random deep schemas with shape mutations at random depths; "
+             "check_schema must return normally exactly on the accepted ones and raise SchemaError and nothing else on "
+             "the others; each metaschema must accept itself (TLC invariant and real call).",
+        note="The metaschemas are regenerated from /repo/jsonschema/schemas on every run, so a change to a bundled metaschema "
+             "changes both sides consistently; the calibration against the official suite in setup guards the semantics.",
+        design="5 C11"),
 }
 
 PENDING_REASON = "check not built yet in this round (framework under construction; DESIGN.md section 8 build order)"
